@@ -790,7 +790,7 @@ def main():
     Ks = [2, 3, 5] if not ck.thorough else [2, 3, 4, 5, 6]
     ck.bound(categorical_K=Ks, bernoulli_n=3, multicategorical_dims=[[2, 3]] + ([[2, 3, 2]] if ck.thorough else []), policy_spaces=["Discrete(3)", "MultiDiscrete((2,3))", "MultiBinary(3)"],
              q_policy_K=[3] if not ck.thorough else [3, 5], epsilons=[0.1, 0.0, -0.5] + ([1.0, 0.5] if ck.thorough else []), sac_action_shapes=["()", "(2,)"],
-             fp32="full mask->normalise->(gumbel-)argmax pipeline bit-precise: mode and sample for K=2, mode for K=3, logits in [-1e30, 1e30]" + ("" if ck.thorough else " (thorough tier only)"),
+             fp32="full mask->normalise->(gumbel-)argmax pipeline bit-precise for K=2 (mode and sample), logits in [-1e30, 1e30]; measured: K=3 mode 70-90 s, K=5 does not finish" + ("" if ck.thorough else " (thorough tier only)"),
              note="masks are symbolic Boolean vectors with at least one allowed action (per component); logits/Q-values/features are arbitrary finite reals; keys symbolic")
     ck.stub(*stubs.STUB_NOTES)
     ck.stub("MLP / Linear sub-networks of MLPActorCriticPolicy (encoder, value head, action-head MLP, final Linear), MLPQPolicy (q_network) and MLPSACPolicy (encoder, mean and "
@@ -807,7 +807,7 @@ def main():
         with ck.section(f"categorical@K={K}"):
             trs_by_K[K] = sec_categorical(ck, K, quick_extra=(K == 3))
     if ck.thorough:
-        for K, smp in ((2, True), (3, False)):
+        for K, smp in ((2, True),):      # (K=3 mode alone needs 70-90 s bit-precise; K=2 mode+sample 20-80 s — bounded at K=2 to keep the tier inside its budget)
             if trs_by_K.get(K) is not None:
                 with ck.section(f"categorical.fp32@K={K}"):
                     sec_categorical_fp32(ck, trs_by_K[K], K, sample=smp)
